@@ -143,6 +143,27 @@ def build(rng: random.Random, size: str = "quick"):
                 add({"fn": "bban_random", "country": cc, "seed": f"s{s}", "use_registry": ur, "kw": {}}, f"seed:s{s}")
         add({"fn": "random", "country": "PL", "seed": f"s{s}", "use_registry": True, "kw": {"branch_code": "1234"}}, f"seed:s{s}")
         add({"fn": "random", "country": "DE", "seed": f"s{s}", "use_registry": True, "kw": {"bank_code": "37040044"}}, f"seed:s{s}")
+    # draws that legitimately run out of attempts (a pinned account under which some listed banks have no check
+    # digit), next to ordinary seeded draws of the same country
+    from vf.ref import national as N_  # noqa: PLC0415
+
+    if "NO" in table:
+        no_codes = [k_[1] for k_ in keys if k_[0] == "NO"][:600]
+        best, best_n = "123456", -1
+        for _ in range(24):
+            acc = "".join(rng.choice(R.DIGITS) for _ in range(6))
+            n_bad = sum(1 for c_ in no_codes if N_.expected_digits("NO", (c_[:4] + acc + "0"))[0] == "none")
+            if n_bad > best_n:
+                best, best_n = acc, n_bad
+        for k in range(10 if size == "quick" else 40):
+            add({"fn": "random", "country": "NO", "seed": f"ov{k}", "use_registry": True, "kw": {"account_code": best}}, "overflow:NO")
+        # ... and bank + account pinned so that no check digit exists at all: every seed runs out of attempts
+        both = next(((c_[:4], a_) for c_ in no_codes for a_ in ("123456", "654321", "111111", "999999", "100000") if N_.expected_digits("NO", c_[:4] + a_ + "0")[0] == "none"), None)
+        if both:
+            for k in range(4):
+                add({"fn": "random", "country": "NO", "seed": f"never{k}", "use_registry": True, "kw": {"bank_code": both[0], "account_code": both[1]}}, "overflow:NO")
+        for k in range(4):
+            add({"fn": "random", "country": "NO", "seed": f"plain{k}", "use_registry": True, "kw": {}}, "overflow:NO")
     # generation, including failing calls
     for cc in ["DE", "BE", "NO", "ES", "FR", "IT", "GB", "PL"]:
         spec = table[cc]
